@@ -141,9 +141,7 @@ def step (line : String) : String :=
             accept := fun i hh => !(rej.contains [i, hh]),
             stderr := fun _ _ => mode,
             strFails := fun i => ss.contains i,
-            reenter := fun i hh => match ree.find? (fun p => p.take 2 = [i, hh]) with
-              | some [_, _, j] => some j
-              | _ => none,
+            reenter := fun i hh => (ree.filter (fun p => p.take 2 = [i, hh])).filterMap (fun p => p[2]?),
             loop := fun i => !(nls.contains i) }
         let w := cfgs.foldl (fun w c => addW c w) ({} : World)
         "|".intercalate (runGroups env d groups w)
